@@ -59,7 +59,7 @@ var quorumSites = []qsite{
 	{"commit_consensus_need", 0, "n"}, // counted signers + the proposer itself (commit_consensus_have = k+1)
 	{"commit_done_c", 1, "n"},         // endorseCnt > C
 	{"vbft_cfg_m", 0, "n"},
-	{"ledger_header_vbft_m", 0, "n"},  // the VBFT header-sync branch (also requires > c distinct listed keys)
+	{"ledger_header_vbft_m", 0, "n"}, // the VBFT header-sync branch (also requires > c distinct listed keys)
 }
 
 func siteByName(n string) gen.Site {
@@ -76,7 +76,7 @@ func Run(c *hx.Ctx) {
 	maxN := int64(c.N(400, 4000))
 	// 1. failing-input search on the formulas as the code has them now.
 	for _, qs := range quorumSites {
-		ev, err := gen.NewEvaluator("/repo", siteByName(qs.name))
+		ev, err := gen.NewEvaluator(c.Repo, siteByName(qs.name))
 		if err != nil {
 			c.Note("site " + qs.name + ": " + err.Error())
 			c.Fail("translator:"+qs.name, "threshold expression not found or outside the supported fragment", qs.name, err.Error(), nil)
